@@ -94,6 +94,10 @@ def _run_isosteric(case, ctx):
     units["loading_unit"] = r.choice(["mmol", "mol", "cm3(STP)"])
     units["material_unit"] = r.choice(["g", "kg"])
     units["temperature_unit"] = r.choice(["K", "°C"])
+    if units["pressure_unit"] == "Pa":
+        # affinities per pascal are small numbers (1e-5 ... 1e-7), pressures large ones
+        for kk in [k_ for k_ in base if k_.startswith("K")]:
+            base[kk] = base[kk] * 1e-5
     order = list(range(nT))
     r.shuffle(order)
     sat = GM.saturation(name, base)
@@ -107,6 +111,8 @@ def _run_isosteric(case, ctx):
             w = GM.pressure_window(name, P, max_cov=0.97)
             ps = numpy.exp(numpy.linspace(math.log(w[1] * 1e-6), math.log(w[1]), 400))
             ls = numpy.asarray(m.loading(ps), dtype=float)
+            if case["seed"] % 4 == 1:
+                ps, ls = ps[::-1], ls[::-1]  # (rows stored from high to low pressure: the branch is what the user says it is)
             isos.append(pygaps.PointIsotherm(pressure=list(ps), loading=list(ls), branch="ads", material="verif-c19", adsorbate=gas, temperature=Tst, **units))
         else:
             w = GM.pressure_window(name, P, max_cov=0.9)
